@@ -121,7 +121,7 @@ CHECKS = {
         "parameters of every location incl. arrays and a schema default, a JSON body with optional/defaulted/array members) and symbolic handler responses (200 with header, 4XX pattern with symbolic "
         "code, default codes, no-content) it asserts: a successful call ran middleware and handler once with exactly the caller's values (defaults applied), the middleware sees what the handler "
         "sees, the caller gets exactly the variant/status/header/body returned, and core-domain values are always delivered. A second spec adds path parameters declared in another order than the template, path-item-level and overriding parameters, zero-valued defaults in query/header/cookie, a required integer header, an enum "
-        "parameter, no-content exact/pattern/default responses with headers, and structured response headers (exploded and non-exploded object, array). Two specs (four operations); the spec dimension is not explored.",
+        "parameter, no-content exact/pattern/default responses with headers, structured response headers (exploded and non-exploded object, array), and path parameters of array shape (simple and exploded matrix style) whose items are arbitrary bytes - an item containing the delimiter must be refused, never split. Two specs (five operations); the spec dimension is not explored.",
    design="4 C01", technique="symbolic execution of generated client and server Go code (go/ssa) in an in-process loop-back + SMT"),
  "C15": dict(
    text="Bounded symbolic model checking of a server GENERATED in this run (C01's spec) against hand-built *http.Request values that bypass net/http's validation: method from six choices x "
